@@ -93,6 +93,30 @@ theorem scanIW_starts (s : PState) (k : List Char) (T : Token) (hs : Stand s k) 
         (by rw [ht]; exact hsig.2.2)
       exact ⟨_, s1, k1, ht, Or.inr ⟨c :: t, rfl, ⟨c, t, rfl, hc1, hc2⟩, ⟨(scan r0).2, look_unsc s1 _ k2, Or.inl w2⟩⟩, k3⟩
 
+/-- (with the buffer fact needed to re-deliver the token to a raw `Scan`) The first significant token of `k`, as `ScanIgnoreWhitespace` delivers it from a state
+standing before `k`; pushed back, the parser still stands before `k`. -/
+theorem scanIW_starts_just (s : PState) (k : List Char) (T : Token) (hs : Stand s k) (hk : Starts k T) :
+    ∃ lx s1 r1, scanIW.run s = .ok (lx, s1) ∧ lx.tok = T ∧ Stand (unsc s1) k ∧ Just s1 lx r1 := by
+  obtain ⟨hsig, hk⟩ := hk
+  rcases hk with ⟨hnb, hk⟩ | ⟨txt, rfl, hh, hk⟩
+  · rcases hs with ⟨r0, hl, hr⟩ | ⟨txt', e, _, _⟩
+    · have ht := hk r0 hr
+      obtain ⟨s1, k1, k2, k3⟩ := scanIW_look s r0 hl (by rw [ht]; exact hsig.1) (by rw [ht]; exact hsig.2.1)
+        (by rw [ht]; exact hsig.2.2)
+      exact ⟨_, s1, _, k1, ht, Or.inl ⟨r0, look_unsc s1 r0 k2, hr⟩, k2⟩
+    · exact absurd e (hnb txt')
+  · obtain ⟨r0, hl, hr | hr⟩ := hs.atW hh
+    · have ht := hk r0 hr
+      obtain ⟨s1, k1, k2, k3⟩ := scanIW_look s r0 hl (by rw [ht]; exact hsig.1) (by rw [ht]; exact hsig.2.1)
+        (by rw [ht]; exact hsig.2.2)
+      exact ⟨_, s1, _, k1, ht, Or.inr ⟨txt, rfl, hh, ⟨r0, look_unsc s1 r0 k2, Or.inl hr⟩⟩, k2⟩
+    · obtain ⟨c, t, rfl, hc1, hc2⟩ := hh
+      obtain ⟨w1, w2⟩ := scan_space r0 c t hc1 hc2 hr
+      have ht := hk (scan r0).2 w2
+      obtain ⟨s1, k1, k2, k3⟩ := scanIW_look_ws s r0 hl w1 (by rw [ht]; exact hsig.1) (by rw [ht]; exact hsig.2.1)
+        (by rw [ht]; exact hsig.2.2)
+      exact ⟨_, s1, _, k1, ht, Or.inr ⟨c :: t, rfl, ⟨c, t, rfl, hc1, hc2⟩, ⟨(scan r0).2, look_unsc s1 _ k2, Or.inl w2⟩⟩, k2⟩
+
 theorem sepU_printOps' {x : Bool} (rest : List (Token × Expr)) (k : List Char)
     (hrest : ∀ p ∈ rest, OpOK x p) (hk : SepU k) : SepU (printOps rest ++ k) := by
   cases rest with
@@ -209,5 +233,99 @@ theorem ExprEnd.of_sepC {k : List Char} (hk : SepC k) : ExprEnd k := by
     · cases h
     · cases h
     · exact h
+
+/-- How the text of an operand of the class begins (as `atom_start`, and the first token is
+significant). -/
+theorem atom_sig {x : Bool} (a : Expr) (ha : rtOK x a = true) (hnb : NB a) (k : List Char) (hk : SepU k) :
+    NoRegexStart (a.print ++ k) ∧
+      ∀ r : Cursor, r.chars = a.print ++ k → (scan r).1.tok ≠ .RPAREN ∧ (scan r).1.tok ≠ .BOUNDPARAM ∧ (scan r).1.tok ≠ .WS ∧
+        (scan r).1.tok ≠ .COMMENT := by
+  obtain ⟨x0, t0, hk0, hx1, hx2, hx3, _, _, _⟩ := sepU_head_facts hk
+  cases a with
+  | binary op l r => exact absurd rfl (hnb op l r)
+  | paren e =>
+    rw [print_paren]
+    refine ⟨nrs_of '(' _ (by decide), fun r hr => ?_⟩
+    rw [(scan_lparen r _ hr).1]; exact ⟨by decide, by decide, by decide, by decide⟩
+  | string v =>
+    have hv : Expressible v := exprB_expressible (by rw [rtOK] at ha; exact ha)
+    rw [print_string]
+    refine ⟨nrs_of '\'' _ (by decide), fun r hr => ?_⟩
+    rw [(scan_string_text r v k hv hr).1]; exact ⟨by decide, by decide, by decide, by decide⟩
+  | integer n =>
+    subst hk0
+    by_cases hpos : 0 ≤ n
+    · obtain ⟨m, rfl⟩ := Int.eq_ofNat_of_zero_le hpos
+      rw [print_integer_nat]
+      obtain ⟨d, dt, hd, hdd⟩ := natDigits_head_digit m
+      refine ⟨by rw [hd]; exact nrs_digit _ hdd, fun r hr => ?_⟩
+      rw [(scan_digits r (natDigits m) x0 t0 (natDigits_ne_nil m) (natDigits_all_digits m) hx1 hx2 hx3 hr).1]
+      exact ⟨by decide, by decide, by decide, by decide⟩
+    · rw [print_integer_neg n (by omega)]
+      obtain ⟨d, dt, hd, hdd⟩ := natDigits_head_digit n.natAbs
+      refine ⟨⟨'-', _, rfl, by decide, by decide, by decide, by decide, fun _ => ⟨d, dt ++ x0 :: t0, by rw [hd]; rfl, ?_⟩⟩,
+        fun r hr => ?_⟩
+      · intro e; subst e; revert hdd; decide
+      · rw [(scan_minus r d (dt ++ x0 :: t0) hdd (by rw [hr, hd]; rfl)).1]; exact ⟨by decide, by decide, by decide, by decide⟩
+  | unsigned v =>
+    subst hk0
+    rw [print_unsigned]
+    obtain ⟨d, dt, hd, hdd⟩ := natDigits_head_digit v
+    refine ⟨by rw [hd]; exact nrs_digit _ hdd, fun r hr => ?_⟩
+    rw [(scan_digits r (natDigits v) x0 t0 (natDigits_ne_nil v) (natDigits_all_digits v) hx1 hx2 hx3 hr).1]
+    exact ⟨by decide, by decide, by decide, by decide⟩
+  | boolean b =>
+    rw [print_boolean]
+    refine ⟨by cases b <;> exact nrs_identFirst _ (by decide), fun r hr => ?_⟩
+    rw [(scan_true_false r b k hk hr).1]
+    cases b <;> exact ⟨by decide, by decide, by decide, by decide⟩
+  | varRef v t =>
+    rw [rtOK] at ha
+    simp only [Bool.and_eq_true, beq_iff_eq] at ha
+    obtain ⟨hv, _⟩ := ha
+    rw [print_varRef, List.append_assoc]
+    refine ⟨?_, fun r hr => ?_⟩
+    · have hnr : NoRegexStart (quoteIdent [v]) := by
+        rw [C06.quoteIdent_single]
+        by_cases hq : (identNeedsQuotes v || v == []) = true
+        · rw [if_pos hq]; exact nrs_of '"' _ (by decide)
+        · rw [if_neg hq]
+          simp only [Bool.or_eq_true, not_or, Bool.not_eq_true, beq_eq_false_iff_ne, ne_eq] at hq
+          obtain ⟨hlk, c, tl, rfl, hc, htl⟩ := (identNeedsQuotes_false_iff v hq.2).mp hq.1
+          have hall : ∀ y ∈ c :: tl, isIdentChar y = true := by
+            intro y hy; simp at hy; rcases hy with rfl | hy
+            · exact (isIdentFirstChar_facts hc).2.2.1
+            · exact htl y hy
+          rw [C06.esc_identChars _ hall]
+          exact nrs_identFirst _ hc
+      obtain ⟨c, t', e, h1, h2, h3, h4, h5⟩ := hnr
+      rw [e]
+      exact ⟨c, t' ++ _, rfl, h1, h2, h3, h4, fun hm => by
+        obtain ⟨d, t'', e', hd⟩ := h5 hm
+        exact ⟨d, t'' ++ _, by rw [e']; rfl, hd⟩⟩
+    · rw [(scan_ident_text r v _ (exprB_expressible hv) (idEnd_castText t k hk) hr).1]; exact ⟨by decide, by decide, by decide, by decide⟩
+  | call name args =>
+    rw [rtOK] at ha
+    simp only [Bool.and_eq_true] at ha
+    obtain ⟨_, hlk, c, tl, rfl, hc, htl⟩ := callNameB_facts ha.1.2
+    rw [print_call]
+    refine ⟨by simpa using nrs_identFirst _ hc, fun r hr => ?_⟩
+    have := scan_word r c tl ('(' :: (joinWith [',', ' '] (printArgs args) ++ [')'] ++ k)) hc htl
+      (Or.inr ⟨'(', _, rfl, by decide, by decide, by decide⟩) (by rw [hr]; simp)
+    rw [this.1, hlk]; exact ⟨by decide, by decide, by decide, by decide⟩
+  | _ => simp [rtOK] at ha
+
+/-- The same for a whole expression followed by any operand separator. -/
+theorem expr_sig {x : Bool} (e : Expr) (he : rtOK x e = true) (k : List Char) (hk : SepU k) :
+    NoRegexStart (e.print ++ k) ∧
+      ∀ r : Cursor, r.chars = e.print ++ k → (scan r).1.tok ≠ .RPAREN ∧ (scan r).1.tok ≠ .BOUNDPARAM ∧
+        (scan r).1.tok ≠ .WS ∧ (scan r).1.tok ≠ .COMMENT := by
+  obtain ⟨hfirst, hops⟩ := rtOK_chain e he
+  rw [print_chain e, List.append_assoc]
+  exact atom_sig (firstA e) hfirst (firstA_nb e) _ (sepU_printOps' _ k hops hk)
+
+theorem headOK_of_nrs {txt : List Char} (h : NoRegexStart txt) : HeadOK txt := by
+  obtain ⟨c, t, e, _, _, h3, h4, _⟩ := h
+  exact ⟨c, t, e, h4, h3⟩
 
 end InfluxQL.RT
